@@ -327,6 +327,17 @@ fn u1(ctx: &mut Ctx) {
                     log.push(format!("add-{} {} type {} class {}", if auth { "authoritative" } else { "cached" }, name_text(&rec.name), rec.rtype, rec.class));
                     if auth { store.add_authoritative_resource(rr) } else { store.add_cached_resource(rr) }
                 }
+                5 | 6 if r.chance(1, 3) => {
+                    // removal of a record that is NOT registered (same owner with other RDATA, a colliding owner, an
+                    // unrelated one): nothing may change
+                    let rec = u1_record(&mut r, &names);
+                    if members.iter().any(|(m, _)| ident_of(m) == ident_of(&rec)) {
+                        continue;
+                    }
+                    let rr = bridge::lib_record(&rec).unwrap().into_owned();
+                    log.push(format!("remove (not registered) {} type {}", name_text(&rec.name), rec.rtype));
+                    store.remove_resource_record(&rr);
+                }
                 5 | 6 => {
                     if members.is_empty() {
                         continue;
